@@ -44,6 +44,12 @@ OBLIGATIONS = [
              "buckets become exactly the server's existing shares; a failed query removes the server from the placement"),
     chx("allocation_for", "C06_h", "h_allocation_for", bounds={"quick": {"N": 3}}, timeout={"quick": 90, "thorough": 300},
         desc="_allocation_for: asks a tracker for exactly the shares the placement maps to its server and takes them off the homeless list"),
+    chx("reported_placements", "C06_h", "h_done", bounds={"quick": {"NT": 3}, "thorough": {"NT": 3}}, timeout={"quick": 120, "thorough": 600},
+        desc="CHKUploader.set_shareholders + _encrypted_done with 3 shares, each allocated on one of up to 3 trackers or nowhere, any subset of the allocated shares surviving "
+             "the push (Encoder.get_shares_placed(); a failed writer is tolerated while the upload stays happy), any shares also pre-existing elsewhere: the reported "
+             "UploadResults sharemap contains exactly the (share, server) pairs whose writer completed - never a share whose writer failed - the servermap is its inverse, "
+             "pushed_shares == number of completed shares, preexisting_shares == number of pre-existing share numbers",
+        outside="that a completed writer's share is byte-complete and readable on the server (C22); Helper-assisted uploads"),
     chx("get_shareholders", "C06_h", "h_shareholders",
         bounds={"quick": {}, "thorough": {}},
         cases={"quick": [{"NSRV": 2, "N": 2, "_label": "2srv2sh"}, {"NSRV": 3, "N": 2, "m0": 2, "h0": 0, "_label": "3srv2sh.allocfail"}],
